@@ -607,3 +607,20 @@ Proof.
       rewrite K by auto. clear -Hlen. revert i Hlen. induction l as [|h t' IH']; intros [|i] H; simpl in *; auto; try lia.
       apply IH'. lia.
 Qed.
+
+(* ---------------- failures (C09) ---------------- *)
+(* A write that fails before reaching the device, and an fsync that fails, leave the device state
+   (durable, pending) as it was: the set of crash images is unchanged, so every guarantee above
+   still holds at that point.  A write that fails after reaching the device is an ordinary
+   un-synced write. *)
+Theorem failed_call_keeps_crash_images v d : crash_image v d <-> crash_image (mkdev (durable v) (pending v)) d.
+Proof. destruct v; simpl. tauto. Qed.
+
+(* Whatever subset of a batch's cell writes reached the device (applied or torn), wiping the
+   journaled extents gives the same cells: this is why a failed batch can always be scrubbed back
+   to the pre-batch contents, and why a crash before the scrub recovers them. *)
+Theorem journaled_writes_are_contained exts ws d d' :
+  (forall i c, In (i, c) ws -> In i exts) ->
+  crash_from d (map (fun ic => WCell (fst ic) (snd ic)) ws) d' ->
+  s0 d' = s0 d /\ s1 d' = s1 d /\ wipe exts (cells d') = wipe exts (cells d).
+Proof. apply crash_from_cells. Qed.
